@@ -587,6 +587,20 @@ def gen_multi(rng):
             "nontrivial": nt, "big": False}
 
 
+def gen_plain(rng):
+    """a format with no directive at all (or only %%): every argument is surplus, whichever way formatting is reached"""
+    text = "".join(rng.choice(["abc", "", "é ", "100", "%%", " done ", "x=y"]) for _ in range(rng.randrange(0, 4)))
+    k = rng.random()
+    if k < 0.25:
+        shape, vals = "arr", []
+    elif k < 0.7:
+        shape, vals = "arr", [rng.choice([vnum(1.0), vstr("x"), vother(0), vstr("")]) for _ in range(rng.randrange(1, 3))]
+    else:
+        shape, vals = "one", [rng.choice([vnum(42.0), vstr("x"), vstr("")])]
+    return {"via": rng.choice(["fmt", "pct", "pct"]), "f": vstr(text), "shape": shape, "vals": vals,
+            "tag": "plain:" + ("empty-args" if not vals else "surplus"), "nontrivial": bool(vals), "big": False}
+
+
 KEYS = ["a", "b", "key", "é", "k 1", "", "日本", "a.b", "x"]
 
 
@@ -830,6 +844,8 @@ def run(rep):
         cases.append(gen_multi(rng))
     for _ in range(n_obj):
         cases.append(gen_object(rng))
+    for _ in range(300 if quick else 6000):
+        cases.append(gen_plain(rng))
     for _ in range(n_mal):
         cases.append(gen_malformed(rng))
     for _ in range(12 if quick else 100):
